@@ -148,10 +148,28 @@ def run_load(case, drv) -> Outcome:
             tr = KTrajectoryIsmrmrd()
         else:
             tr = KTrajectory(torch.zeros(1, 1, 1, 1), torch.zeros(1, 1, 1, 1), torch.arange(n_k0, dtype=torch.float32).reshape(1, 1, 1, n_k0))
+        last_file[0] = (fn, [allacq[i] for i in order])
         return call(lambda: KData.from_file(fn, tr))
 
+    last_file = [None]
     ords = orderings(case, rng, allacq)
     st, kd0 = load(ords[0])
+    # the noise scan of the same file: exactly the readouts flagged as noise measurement, in file order, bit-identical
+    noise_viol = None
+    fn0, in_file = last_file[0]
+    noise_ids = [a['id'] for a in in_file if a['flags'] >> (ismrmrd.ACQ_IS_NOISE_MEASUREMENT - 1) & 1]
+    from mrpro.data import KNoise
+
+    stn, kn = call(lambda: KNoise.from_file(fn0))
+    if noise_ids:
+        if stn != 'ok':
+            noise_viol = v('noise-raises', f'KNoise.from_file raises {kn} although the file holds noise readouts {noise_ids}')
+        else:
+            got_ids = [int(round(float(kn.data[i, 0, 0, 0, 0].real))) for i in range(kn.data.shape[0])]
+            if got_ids != noise_ids or list(kn.data.shape[1:]) != [n_coils, 1, 1, n_k0]:
+                noise_viol = v('noise-readouts', f'KNoise.from_file returns readouts {got_ids} (shape {list(kn.data.shape)}), the file holds noise readouts {noise_ids} in this order')
+    elif stn == 'ok':
+        noise_viol = v('noise-invented', f'KNoise.from_file returns {kn.data.shape[0]} readouts from a file without noise measurements')
     # ---- model: which readouts are kept, in which order, with which (n_k2, n_k1)
     key = lambda a: [a['labels'].get(l, 0) for l in mrd.LABELS]  # noqa: E731
     image_kept = [a for a in allacq if a.get('coils') is None]
@@ -246,6 +264,7 @@ def run_load(case, drv) -> Outcome:
             if diff:
                 viol = v('order-dependent', f'loaded object depends on the order of acquisitions in the file (order {o[:10]}): differs in {diff}')
                 break
+    viol = viol or noise_viol
     return Outcome(key=('load', case['n_k1'], case['n_k2'], str(case['others']), case['ragged'], case['reversed'], case['struct_flags'], case['interleave'], case['traj'], len(ords)),
                    corr=corr, viol=viol, branches=[f'traj:{case["traj"]}', f'interleave:{case["interleave"]}', f'others:{len(case["others"])}', f'ragged:{case["ragged"]}',
                                                    f'flags:{case["struct_flags"]}', f'orders:{len(ords)}'], sample={**case, 'n_readouts': len(allacq), 'orders_tried': len(ords)})
